@@ -53,13 +53,25 @@ def landscape(o):
     raise ValueError(k)
 
 
-def objective(o, negate):
-    g = landscape(o)
-    off, sc = o.get("offset", 0), o.get("scale", 1)
+def xval(v):
+    return float(v) if isinstance(v, str) else v
+
+
+def objective(o, negate, plant=None):
+    """plant = (point, value): the objective takes `value` at exactly that point (class W: an optimum planted at an early
+    evaluation of a dry run).  The description `o` is read at CALL time (class A2: edited in place between calls)."""
     sgn = -1 if negate else 1
-    if o.get("float"):
-        return lambda x: float(sgn * (off + sc * g(x)))
-    return lambda x: sgn * (off + sc * g(x))
+
+    def f(x):
+        if plant is not None and [float(t) for t in x] == plant[0]:
+            return plant[1]
+        g = landscape(o)(x)
+        if "xvals" in o:  # class X: float extremes looked up by the small landscape
+            return sgn * xval(o["xvals"][g % len(o["xvals"])])
+        v = sgn * (o.get("offset", 0) + o.get("scale", 1) * g)
+        return float(v) if o.get("float") else v
+
+    return f
 
 
 def as_kind(seq, kind):
@@ -94,10 +106,27 @@ def deep_eq(a, b):
     return a == b
 
 
-def execute(spec, flip=False):
+def execute(spec, flip=False, live=None):
+    """live = {"f", "log", "args"}: reuse the SAME objective / container objects as an earlier call (class A2)."""
     s = spec["solver"]
     minimize = spec["minimize"] != flip
-    f = objective(spec["obj"], flip)
+    if live is not None:
+        rec, log, args = live["rec"], live["log"], live["args"]
+        del log[:]
+        return _call(spec, s, minimize, flip, rec, log, args)
+    plant = None
+    if spec.get("plant") is not None:  # class W: dry run, then plant a far better value at its k-th evaluated point
+        dry = _call(spec, s, minimize, flip, *_recorder(objective(spec["obj"], flip)), build_args(spec))
+        if len(dry["log"]) > spec["plant"]:
+            far = 10**7 * (spec["obj"].get("scale", 1)) + abs(spec["obj"].get("offset", 0))
+            plant = (dry["log"][spec["plant"]][0], (-far if minimize else far))
+    rec, log = _recorder(objective(spec["obj"], flip, plant))
+    o = _call(spec, s, minimize, flip, rec, log, build_args(spec))
+    o["plant"] = plant
+    return o
+
+
+def _recorder(f):
     log = []
 
     def rec(x):
@@ -105,7 +134,10 @@ def execute(spec, flip=False):
         log.append(([float(t) for t in x], v))
         return v
 
-    args = build_args(spec)
+    return rec, log
+
+
+def _call(spec, s, minimize, flip, rec, log, args):
     common = dict(minimize=minimize, max_iter=spec["max_iter"])
     if s == "de":
         fn = importlib.import_module("solvor.differential_evolution").differential_evolution
@@ -120,7 +152,8 @@ def execute(spec, flip=False):
         call = lambda: fn(rec, args["x0"], tol=spec["tol"], adaptive=spec["adaptive"], initial_step=spec["initial_step"], **common)  # noqa: E731
     elif s == "bayes":
         fn = importlib.import_module("solvor.bayesian").bayesian_opt
-        call = lambda: fn(rec, args["bounds"], n_initial=spec["n_initial"], acquisition=spec["acquisition"], seed=spec["seed"], **common)  # noqa: E731
+        extra = {"acq_restarts": spec["acq_restarts"]} if "acq_restarts" in spec else {}
+        call = lambda: fn(rec, args["bounds"], n_initial=spec["n_initial"], acquisition=spec["acquisition"], seed=spec["seed"], **extra, **common)  # noqa: E731
     elif s == "powell":
         fn = importlib.import_module("solvor.powell").powell
         call = lambda: fn(rec, args["x0"], bounds=args.get("bounds"), tol=spec["tol"], **common)  # noqa: E731
@@ -130,14 +163,16 @@ def execute(spec, flip=False):
         sg = 1 if minimize else -1
 
         def grad(x):
+            if spec.get("grad_kind") == "sin":  # never vanishes together with the steps: the run uses its whole budget
+                return [sg * (gs * math.sin(_safe(v)) + 0.3 * (_safe(v) - c[i % 3])) for i, v in enumerate(x)]
             return [sg * 2 * gs * (_safe(v) - c[i % 3]) for i, v in enumerate(x)]
 
         if s == "bfgs":
             call = lambda: m.bfgs(grad, args["x0"], objective_fn=rec, tol=spec["tol"], **common)  # noqa: E731
         else:
             call = lambda: m.lbfgs(grad, args["x0"], objective_fn=rec, m=spec["m"], tol=spec["tol"], **common)  # noqa: E731
-    out = guarded(call, timeout=20)
-    o = {"status": out[0], "log": log, "minimize": minimize, "flip": flip, "args_intact": deep_eq(args, build_args(spec))}
+    out = guarded(call, timeout=spec.get("timeout", 20))
+    o = {"status": out[0], "log": list(log), "minimize": minimize, "flip": flip, "args_intact": deep_eq(args, build_args(spec))}
     if out[0] == "ok":
         r = out[1]
         o["res"] = {"solution": [float(t) for t in r.solution], "objective": r.objective, "iterations": int(r.iterations),
@@ -147,19 +182,31 @@ def execute(spec, flip=False):
     return o
 
 
+def is_nan(v):
+    return isinstance(v, float) and v != v
+
+
+def veq(a, b):
+    return a == b or (is_nan(a) and is_nan(b))
+
+
 def judge(spec, o):
+    if o["status"] == "exc" and spec.get("may_raise"):
+        return None  # class X: NaN / inf objectives may be rejected by an exception, never by a wrong answer or a hang
     if o["status"] != "ok":
         return f"implementation {o['status']}: {o.get('error')}"
     r = o["res"]
-    f = objective(spec["obj"], o["flip"])
+    f = objective(spec["obj"], o["flip"], o.get("plant"))
     fx = f(r["solution"])
-    if r["objective"] != fx:
+    if not veq(r["objective"], fx):
         return f"reported objective {r['objective']!r} != f(returned solution {r['solution']}) = {fx!r}"
     if not o["args_intact"]:
         return "the caller's bounds / x0 / initial population was modified"
     if spec["solver"] in GROUP1:
         vals = [v for _, v in o["log"]]
         worse = [v for v in vals if (v < r["objective"] if o["minimize"] else v > r["objective"])]
+        if any(is_nan(v) for v in vals):
+            worse = []  # NaN is unordered: best-of-evaluated is judged on NaN-free logs only
         if worse:
             k = vals.index(worse[0])
             return (f"reported objective {r['objective']!r} is worse than evaluated candidate #{k} {o['log'][k][0]} with f={worse[0]!r} "
@@ -180,13 +227,49 @@ def judge_pair(a, b, what):
         return None
     ra, rb = a["res"], b["res"]
     neg = -1 if what == "mirror" else 1
-    if ra["solution"] != rb["solution"] or ra["objective"] != neg * rb["objective"] or ra["evaluations"] != rb["evaluations"] \
+    if ra["solution"] != rb["solution"] or not veq(ra["objective"], neg * rb["objective"]) or ra["evaluations"] != rb["evaluations"] \
             or ra["iterations"] != rb["iterations"]:
         return f"{what} broken: ({ra['solution']}, {ra['objective']!r}, evals {ra['evaluations']}) vs ({rb['solution']}, {rb['objective']!r}, evals {rb['evaluations']})"
     return None
 
 
+def apply_a2(spec, args):
+    """class A2: edit the caller's objects in place (objective parameters, a bound, a start coordinate, an initial point)"""
+    ed = spec["a2"]
+    if "c0" in ed:
+        spec["obj"]["c"][0] = ed["c0"]
+    if "table0" in ed and "table" in spec["obj"]:
+        spec["obj"]["table"][0] = ed["table0"]
+    if "bound" in ed and "bounds" in args and isinstance(args["bounds"], list) and isinstance(args["bounds"][0], list):
+        i, hi = ed["bound"]
+        spec["bounds"][i][1] = hi
+        args["bounds"][i][1] = hi
+    if "x0" in ed and isinstance(args.get("x0"), list):
+        spec["x0"][0] = ed["x0"]
+        args["x0"][0] = ed["x0"]
+    if "init" in ed and args.get("init"):
+        spec["init"][0][0] = ed["init"]
+        args["init"][0][0] = ed["init"]
+
+
+def work_a2(spec):
+    live_spec = copy.deepcopy(spec)
+    rec, log = _recorder(objective(live_spec["obj"], False))
+    live = {"rec": rec, "log": log, "args": build_args(live_spec)}
+    execute(live_spec, live=live)
+    apply_a2(live_spec, live["args"])
+    second = execute(live_spec, live=live)
+    eff = copy.deepcopy(live_spec)
+    fresh = execute(copy.deepcopy(eff))
+    flip = execute(copy.deepcopy(eff), flip=True)
+    mirror = judge_pair(second, flip, "mirror") if spec["solver"] in GROUP1 else None
+    bad = judge(eff, second) or mirror or judge_pair(second, fresh, "call after an in-place edit of the inputs vs fresh call on a copy")
+    return {"bad": bad, "a": second, "b": flip, "spec": eff}
+
+
 def work(spec):
+    if spec.get("a2"):
+        return work_a2(spec)
     a = execute(spec)
     b = execute(spec, flip=True)
     c = execute(spec)
@@ -243,8 +326,83 @@ def gen_spec(rng, solver, big=False):
         if spec["bounds"]:
             spec["x0"] = [min(max(v, b[0]), b[1]) for v, b in zip(spec["x0"], spec["bounds"])]
     else:
-        spec.update(x0=pt(), x0_kind=rng.choice(["list", "tuple"]), tol=rng.choice([1e-6, 0.5]), grad_c=[rng.choice([0.0, 0.5, -1.25]) for _ in range(3)],
+        spec.update(x0=pt(), x0_kind=rng.choice(["list", "tuple"]), tol=rng.choice([1e-6, 0.5]), grad_c=[rng.choice([0.0, 0.5, -1.25]) for _ in range(3)], grad_kind="bowl",
                     grad_s=rng.choice([0.5, 1.0, 3.0]), m=rng.choice([1, 2, 10]), max_iter=rng.choice([0, 1, 2, 3, 5, 8]))
+    return spec
+
+
+# budgets that make the solver's objective-evaluation count cross 2^7, 2^10, 2^12 and 10^4 (class W)
+W_LEVELS = {
+    "de": [("max_iter", 20), ("max_iter", 135), ("max_iter", 520), ("max_iter", 1300)],      # 8 individuals per generation
+    "pso": [("max_iter", 30), ("max_iter", 210), ("max_iter", 830), ("max_iter", 2010)],     # 5 particles
+    "nm": [("max_iter", 140), ("max_iter", 1030), ("max_iter", 4100), ("max_iter", 10010)],
+    "bayes": [("max_iter", 130), ("max_iter", 134), ("max_iter", 258), ("max_iter", 514), ("max_iter", 1026)],  # GP fit is cubic
+    "powell": [("max_iter", 3), ("max_iter", 12), ("max_iter", 40), ("max_iter", 90)],
+    "bfgs": [("max_iter", 10), ("max_iter", 40), ("max_iter", 140), ("max_iter", 330)],
+    "lbfgs": [("max_iter", 10), ("max_iter", 40), ("max_iter", 140), ("max_iter", 330)],
+}
+
+
+def gen_W(rng, solver, level):
+    """work volume: long runs; `plant` puts a far better value at the k-th point the run evaluates (k small), so anything that
+    forgets old observations (window, cap, restart) returns a worse point than one it evaluated"""
+    spec = gen_spec(rng, solver)
+    spec["shape"] = "W"
+    spec["obj"] = gen_obj(rng, rng.choice(["small", "small", "huge"]))
+    spec["max_iter"] = W_LEVELS[solver][level][1]
+    spec["plant"] = rng.choice([0, 0, 1, 2, 3, None])
+    spec["timeout"] = 600
+    if solver == "de":  # many plateaus: the population does not collapse to one point (tol=0 stops only on exact collapse)
+        spec.update(population_size=8, tol=0.0, init=None, strategy="rand/1")
+        spec["obj"].update(kind="table", table=[rng.randint(0, 6) for _ in range(8)], res=rng.choice([2, 4]))
+    elif solver == "pso":
+        spec.update(n_particles=5, init=None)
+    elif solver == "nm":
+        spec.update(tol=0.0)
+    elif solver == "bayes":
+        spec.update(n_initial=spec["max_iter"] - rng.choice([2, 2, 4]), acq_restarts=1, d=1, bounds=gen_bounds(rng, 1))
+        spec["obj"]["kind"] = rng.choice(["quad", "abs"])
+    elif solver == "powell":
+        spec.update(tol=0.0)
+    else:
+        spec.update(tol=0.0, grad_kind="sin")
+    return spec
+
+
+XVALS = [1e308, -1e308, 1.7976931348623157e308, "inf", "-inf", 0.0, -0.0, 2.0**60, -(2.0**60), 2.0**60 + 256, 5e-324, 1e-300, 0.1 + 0.2, 0.3, 33, 33.0,
+         2**60, -(2**60) + 1]
+
+
+def gen_X(rng, solver):
+    """float extremes as objective values: +-1e308, +-inf, +-0.0, denormals, 2^60 next to -2^60, ints next to equal floats; NaN"""
+    spec = gen_spec(rng, solver)
+    spec["shape"] = "X"
+    nan = rng.random() < 0.2
+    finite = rng.random() < 0.5
+    pool = [v for v in XVALS if not (finite and isinstance(v, str))] + (["nan", "nan"] if nan else [])
+    spec["obj"] = {"kind": rng.choice(["table", "abs", "quad"]), "c": [rng.choice([0.0, 0.5, -1.25]) for _ in range(3)], "s": rng.choice([1, 3]),
+                   "table": [rng.randint(0, 6) for _ in range(5)], "res": rng.choice([1, 2]), "xvals": [rng.choice(pool) for _ in range(rng.choice([3, 5, 8]))]}
+    spec["may_raise"] = any(isinstance(v, str) for v in spec["obj"]["xvals"])
+    return spec
+
+
+def gen_A2(rng, solver):
+    """in-place edits between calls: the same objective object (its parameters edited), the same bounds / x0 / initial-population lists"""
+    spec = gen_spec(rng, solver)
+    spec["shape"] = "A2"
+    spec["obj"] = gen_obj(rng, "small")
+    spec["bounds_kind"] = "list_of_lists"
+    spec["x0_kind"] = "list"
+    spec["max_iter"] = max(spec["max_iter"], 3)
+    ed = {"c0": rng.choice([-2.0, 1.0, 3.0]), "table0": rng.choice([-9, 9])}
+    if spec.get("bounds"):
+        i = rng.randrange(len(spec["bounds"]))
+        ed["bound"] = [i, spec["bounds"][i][1] + rng.choice([1.0, 2.5])]
+    if "x0" in spec and not spec.get("bounds"):
+        ed["x0"] = rng.choice([-1.0, 0.25, 2.0])
+    if spec.get("init"):
+        ed["init"] = spec["init"][0][0] * 0.5
+    spec["a2"] = ed
     return spec
 
 
@@ -275,20 +433,37 @@ def run_shapes(ctx: Ctx):
             c = copy.deepcopy(base)
             c["max_iter"] = mi
             specs.append(c)
-    results = pmap(work, specs)
+    # class W: every solver across 2^7, 2^10, 2^12, 10^4 evaluations (bayes: 130, 134, 258, 514 quick; 1026 thorough)
+    for s in per:
+        levels = range(len(W_LEVELS[s])) if (big or s != "bayes") else range(3)
+        for lv in levels:
+            for _ in range(2 if (s != "bayes" or lv < 3) else 1):
+                specs.append(gen_W(ctx.rng, s, lv))
+    for s, n in per.items():
+        specs += [gen_X(ctx.rng, s) for _ in range(max(4, n // 2))]
+        specs += [gen_A2(ctx.rng, s) for _ in range(max(4, n // 3))]
+    specs.sort(key=lambda sp: -(sp["max_iter"] ** (3 if sp["solver"] == "bayes" else 1)))
+    results = pmap(work, specs, chunksize=1)
     terms, tmeta = [], []
+    loop_max = ctx.extra.setdefault("max_loop_counts", {})
     for spec, r in zip(specs, results):
+        spec = r.get("spec") or spec  # class A2: the spec as edited in place
+        ctx.count("shapes_family", spec.get("shape", "M"))
+        if r["a"]["status"] == "ok":
+            for k in ("evaluations", "iterations"):
+                key = f"{spec['solver']}.{k}"
+                loop_max[key] = max(loop_max.get(key, 0), r["a"]["res"][k])
         ctx.evaluations += 3
         ctx.count("shapes_solver", spec["solver"])
         ctx.count("shapes_magnitude", "float@2^60" if spec["obj"].get("float") else ("small" if not spec["obj"].get("offset") else "huge-int"))
         if r["a"]["status"] == "ok" and len(r["a"]["log"]) >= 3:
             ctx.nontriv(json.dumps(spec, sort_keys=True))
         if r["bad"]:
-            ctx.violation(f"{spec['solver']} [shapes M/I/A]: {r['bad']}",
+            ctx.violation(f"{spec['solver']} [shapes {spec.get('shape', 'M')}]: {r['bad']}",
                           {"case": spec, "impl": {"primary": r["a"].get("res") or r["a"].get("error"), "mirror": r["b"].get("res") or r["b"].get("error")}})
         if spec["solver"] in GROUP1:
             for o in (r["a"], r["b"]):
-                if o["status"] == "ok" and len(o["log"]) <= 400:
+                if o["status"] == "ok" and len(o["log"]) <= 400 and "xvals" not in spec["obj"]:
                     t = coq_spec_term(spec, o)
                     if t:
                         terms.append(t)
